@@ -75,6 +75,8 @@ def gen(seed, nepisodes, prefix='r', big=True, hist=False):
                     ops.append({'op': 'setStream', 'v': rng.choice(streams + [rng.randrange(256)])})
                 else:
                     ops.append({'op': 'restart'})
+            if hist and rng.random() < 0.15:
+                ops.append({'op': 'recopy'})           # the encoder copied in the middle of its life, the copy used from here on
             ctx = pick_ctx(rng, big)
             npk = rng.choice([1, 1, 2, 3, 5, 8, 20, 40])
             b = batch(rng, ctx, npk, big, 150000)
